@@ -46,6 +46,9 @@ struct Thread {
 struct Case {
   int cap = 0;  // capacity the case was generated for (the binary's DBGROUP_MAX_THREAD_NUM must match)
   bool use_epoch = false;
+  // replay-only option (never generated): enable the scheduling points inside GetProtectedEpochs' walk over the
+  // list nodes (source hook CPP_UTILITY_VERIF_POINT); lifts the by-construction exclusion of known finding KF-C17-WALK
+  bool walk_points = false;
   std::vector<Thread> threads;
   vsched::Schedule sched;
 };
@@ -57,6 +60,7 @@ to_text(const Case &c)
   o << "family thread\n";
   o << "cap " << c.cap << "\n";
   o << "epoch " << (c.use_epoch ? 1 : 0) << "\n";
+  if (c.walk_points) o << "option walk_points 1\n";
   for (size_t t = 0; t < c.threads.size(); t++) {
     const auto &th = c.threads[t];
     o << "thread " << t << " " << (th.sk == vsched::kBegin ? "begin" : th.sk == vsched::kAfterBody ? "after_body" : "after_exit") << " " << th.dep
@@ -86,6 +90,11 @@ from_text(const std::string &text, Case &c, std::string &err)
       int v = 0;
       ls >> v;
       c.use_epoch = v != 0;
+    } else if (w == "option") {
+      std::string n;
+      int v = 0;
+      ls >> n >> v;
+      if (n == "walk_points") c.walk_points = v != 0;
     } else if (w == "thread") {
       size_t t = 0;
       std::string sk;
@@ -149,6 +158,7 @@ struct Outcome {
   int forwards = 0;
   int skipped = 0;
   int executed = 0;
+  int excluded_known = 0;  // hook points left inert (stalls inside the node walk are excluded: KF-C17-WALK)
 };
 
 }  // namespace threadcase
